@@ -31,6 +31,10 @@
 #include "internal/inputerator.hpp"
 #include "internal/rewind_guard.hpp"
 
+#if defined( TAO_PEGTL_VERIF ) && !defined( TAO_PEGTL_VERIF_ACCESS )
+#define TAO_PEGTL_VERIF_ACCESS( what, need, have ) ( (void)0 )
+#endif
+
 namespace TAO_PEGTL_NAMESPACE
 {
    template< typename Reader, typename Eol = eol::lf_crlf, typename Source = std::string, std::size_t Chunk = 64 >
@@ -115,6 +119,9 @@ namespace TAO_PEGTL_NAMESPACE
 
       [[nodiscard]] char peek_char( const std::size_t offset = 0 ) const noexcept
       {
+#if defined( TAO_PEGTL_VERIF )
+         TAO_PEGTL_VERIF_ACCESS( "peek_char", offset + 1, m_end - m_current.data );
+#endif
          return m_current.data[ offset ];
       }
 
@@ -125,16 +132,25 @@ namespace TAO_PEGTL_NAMESPACE
 
       void bump( const std::size_t in_count = 1 ) noexcept
       {
+#if defined( TAO_PEGTL_VERIF )
+         TAO_PEGTL_VERIF_ACCESS( "bump", in_count, m_end - m_current.data );
+#endif
          internal::bump( m_current, in_count, Eol::ch );
       }
 
       void bump_in_this_line( const std::size_t in_count = 1 ) noexcept
       {
+#if defined( TAO_PEGTL_VERIF )
+         TAO_PEGTL_VERIF_ACCESS( "bump_in_this_line", in_count, m_end - m_current.data );
+#endif
          internal::bump_in_this_line( m_current, in_count );
       }
 
       void bump_to_next_line( const std::size_t in_count = 1 ) noexcept
       {
+#if defined( TAO_PEGTL_VERIF )
+         TAO_PEGTL_VERIF_ACCESS( "bump_to_next_line", in_count, m_end - m_current.data );
+#endif
          internal::bump_to_next_line( m_current, in_count );
       }
 
